@@ -204,6 +204,11 @@ let handle (line : string) : string =
           (split_on ',' plan) in
       let (r, s') = M.rename_abs_run (get model_w).M.w_peer (bh o) (bh n) faults in
       (match r with M.RTrue -> "true" | M.RFalse -> "false" | M.RError -> "error") ^ " " ^ srv_dump s'
+  | "spec_op" :: ver :: t ->
+      (* the functional specification of ms/Spec.v on the state of the server the real client talks to *)
+      (match M.spec_op (ver = "1") (parse_op t) (get impl_srv) with
+       | None -> "none"
+       | Some (v, s') -> value_str v ^ " " ^ srv_dump s')
   | ["parse_cmd"; d] -> presult_str (M.parse_command (bh d))
   | ["select_mech"; v; m] -> ohb (M.select_mech (bh v) (obh m))
   | ["fn"; name; d] -> unit_fn name (bh d)
